@@ -68,6 +68,48 @@ Theorem C17_dropped_is_reported_refuted : exists g,
 Proof. exists g_silent. exact dropped_is_reported_refuted. Qed.
 Print Assumptions C17_dropped_is_reported_refuted.
 
+(* extraction: an example written on the schema itself or on one of its anyOf /
+   oneOf branches is among the extracted top-level values (when extraction does
+   not raise) *)
+Theorem C17_branch_examples_extracted : forall d key l b ef efs esf v vs,
+  key = s_anyOf \/ key = s_oneOf ->
+  assoc_get key d = Some (JArr l) -> In b l -> In ef efs -> obj_get ef b = Some v ->
+  top_values_res efs esf (JObj d) = Ok vs -> In v vs.
+Proof. exact branch_examples_extracted. Qed.
+Print Assumptions C17_branch_examples_extracted.
+
+Theorem C17_self_example_extracted : forall d ef efs esf v vs,
+  In ef efs -> assoc_get ef d = Some v ->
+  top_values_res efs esf (JObj d) = Ok vs -> In v vs.
+Proof. exact self_example_extracted. Qed.
+Print Assumptions C17_self_example_extracted.
+
+(* ... but not on a later allOf member of an OpenAPI 2.0 schema (fields example /
+   x-example / x-examples): the same schema read with the 3.0 fields gives both *)
+Theorem C17_allof_examples_20_refuted : exists schema first second,
+  schema = JObj [(s_allOf, JArr [first; second])] /\ obj_get s_example second = Some (JInt 2) /\
+  top_values [s_example; s_x_example] s_x_examples schema = XOk [JInt 1] /\
+  top_values [s_example] s_examples schema = XOk [JInt 1; JInt 2].
+Proof.
+  exists sch_allof_20, (JObj [(s_example, JInt 1)]), (JObj [(s_example, JInt 2)]).
+  repeat split; exact (proj1 allof_examples_20_refuted) || exact (proj2 allof_examples_20_refuted).
+Qed.
+Print Assumptions C17_allof_examples_20_refuted.
+
+(* ... nor inside a branch of a branch *)
+Theorem C17_nested_branch_refuted : exists inner,
+  obj_get s_example inner = Some (JInt 1) /\
+  top_values [s_example] s_examples (JObj [(s_anyOf, JArr [JObj [(s_anyOf, JArr [inner])]])]) = XOk [].
+Proof. exists (JObj [(s_example, JInt 1)]). split; [reflexivity | exact nested_branch_refuted]. Qed.
+Print Assumptions C17_nested_branch_refuted.
+
+(* ... nor on a property of an object schema that is itself an allOf member *)
+Theorem C17_property_in_branch_refuted : exists schema, forall fuel g,
+  extract_from_schema (S fuel) g s_example s_examples schema = XOk [] /\
+  top_values [s_example] s_examples schema = XOk [].
+Proof. exists sch_prop_in_branch. exact property_in_branch_refuted. Qed.
+Print Assumptions C17_property_in_branch_refuted.
+
 (* hypotheses are satisfiable by non-trivial inputs *)
 Theorem C17_hypotheses_satisfiable :
   (exists exs, containers_ok exs = true /\ length (produce_combinations exs) = 3 /\
